@@ -126,12 +126,17 @@ type RunOpts struct {
 	Strace     []string // if set, run under strace with these args
 	MroFile    string   // default main.mro
 	NoTrace    bool
+	// If > 0: stop the run early once the hook trace shows this many
+	// consecutive run-loop iterations without any state change (a logical
+	// stall); reported as TimedOut + Stalled.
+	StallLoops int
 }
 
 type RunResult struct {
 	Exit      int
 	Signaled  bool
 	TimedOut  bool
+	Stalled   bool
 	Output    string
 	Wall      time.Duration
 	RaceLogs  []string
@@ -216,8 +221,32 @@ func (c *Case) Run(o RunOpts) *RunResult {
 		timeout = 120 * time.Second
 	}
 	var err error
+	stall := make(chan struct{})
+	if o.StallLoops > 0 && !o.NoTrace {
+		go func() {
+			for {
+				time.Sleep(3 * time.Second)
+				select {
+				case <-done:
+					return
+				default:
+				}
+				if IdleLoops(loadJSONL[TraceRec](c.TracePath)) >= o.StallLoops {
+					close(stall)
+					return
+				}
+			}
+		}()
+	}
 	select {
 	case err = <-done:
+	case <-stall:
+		res.TimedOut = true
+		res.Stalled = true
+		syscall.Kill(cmd.Process.Pid, syscall.SIGQUIT)
+		time.Sleep(300 * time.Millisecond)
+		syscall.Kill(-cmd.Process.Pid, syscall.SIGKILL)
+		err = <-done
 	case <-time.After(timeout):
 		res.TimedOut = true
 		// dump goroutines, then kill the whole session
@@ -247,6 +276,34 @@ func (c *Case) Run(o RunOpts) *RunResult {
 		res.RaceLogs = m
 	}
 	return res
+}
+
+// IdleLoops counts the run-loop iterations at the end of the trace (of the
+// most recent mrp process) during which nothing changed state.
+func IdleLoops(trace []TraceRec) int {
+	idle := 0
+	pid := 0
+	for i := len(trace) - 1; i >= 0; i-- {
+		t := trace[i]
+		if t.Proc != "mrp" {
+			continue
+		}
+		if pid == 0 {
+			pid = t.Pid
+		}
+		if t.Pid != pid {
+			break
+		}
+		switch {
+		case t.Name == "loop:begin":
+			idle++
+		case strings.HasPrefix(t.Name, "meta:write") || strings.HasPrefix(t.Name, "runjob") ||
+			strings.HasPrefix(t.Name, "refresh:file") || strings.HasPrefix(t.Name, "local:") ||
+			strings.HasPrefix(t.Name, "remote:") || strings.HasPrefix(t.Name, "expand:"):
+			return idle
+		}
+	}
+	return idle
 }
 
 // WaitOrphans waits until no process has the pipestance dir in its cmdline
